@@ -115,24 +115,30 @@ static const char *vec_str(const int *v){
 }
 
 /* ------------------------------------------------------------------ signals */
-enum { H_MIX=SIG_NFAM, H_NAN, H_INF, H_BIG, H_LOUD, H_DENORM, NFAM_ALL };
-static const char *famname(int f){ static const char *const h[]={"float-mix(NaN,Inf,1e10,denormal)","float-NaN","float-Inf","float-1e10","float-x200","float-denormal"}; return f<SIG_NFAM?sig_name[f]:h[f-SIG_NFAM]; }
+enum { H_MIX=SIG_NFAM, H_NAN, H_INF, H_BIG, H_LOUD, H_DENORM, F_VN, NFAM_ALL };   /* F_VN: noisy voiced signal (int16, all entry points) */
+static const char *famname(int f){ static const char *const h[]={"float-mix(NaN,Inf,1e10,denormal)","float-NaN","float-Inf","float-1e10","float-x200","float-denormal","noisy-voiced"}; return f<SIG_NFAM?sig_name[f]:h[f-SIG_NFAM]; }
 typedef struct { short *s16; opus_int32 *s24; float *f; } sigbuf;
-static sigbuf SB[NFAM_ALL]; static int sb_fs=-1, sb_ch=-1; static long SBN;
+static sigbuf SB[NFAM_ALL]; static int sb_fs=-1, sb_ch=-1; static long SBN; static int g_siglen=9, g_tight=0;   /* signal length in tenths of a second */
 static int FAMS[NFAM_ALL], NFAMS;
 static void load_signals(int Fs,int ch){
    int k; long i,n;
    if (sb_fs==Fs && sb_ch==ch) return;
-   SBN = (long)Fs*9/10; n=SBN*ch;                         /* 0.9 s: 7 frames of 120 ms plus slack */
+   SBN = (long)Fs*g_siglen/10; n=SBN*ch;                  /* default 0.9 s: 7 frames of 120 ms plus slack; the tight-budget part uses 4 s */
    for(k=0;k<NFAM_ALL;k++){ free(SB[k].s16); free(SB[k].s24); free(SB[k].f); SB[k].s16=NULL; SB[k].s24=NULL; SB[k].f=NULL; }
    for(k=0;k<NFAM_ALL;k++){
       int fam=k,used=(fam==SIG_NOISE||fam==SIG_SQUARE||fam==SIG_SPEECH),q; sigbuf *b=&SB[fam];   /* the sweeps always use noise/square/speech */
       for(q=0;q<NFAMS;q++) if(FAMS[q]==fam) used=1;
+      if (g_tight) used = (fam==F_VN||fam==SIG_NOISE||fam==SIG_SPEECH||fam==SIG_MULTITONE);
       if (!used) continue;
       b->f=malloc(n*sizeof(float));
-      if (fam<SIG_NFAM){
+      if (fam<SIG_NFAM || fam==F_VN){
          siggen g; b->s16=malloc(n*sizeof(short)); b->s24=malloc(n*sizeof(opus_int32));
-         sig_init(&g,fam,Fs,ch,(uint32_t)(fam*7+1)); sig_gen(&g,b->s16,(int)SBN);
+         if (fam==F_VN){   /* harmonics of a slowly moving 100-180 Hz pitch under a 3 Hz envelope plus envelope-following noise: keeps SILK at its bit cap */
+            uint32_t l=4711u; double ph=0; long t; int c;
+            for(t=0;t<SBN;t++){ double env=0.55+0.45*sin(2*M_PI*t/(0.31*Fs)), f0=140+40*sin(2*M_PI*t/(1.7*Fs)), hv;
+               ph+=2*M_PI*f0/Fs; if(ph>2*M_PI) ph-=2*M_PI; hv=5000*env*(sin(ph)+0.5*sin(2*ph)+0.35*sin(3*ph)+0.2*sin(5*ph));
+               for(c=0;c<ch;c++){ double nz; l=l*1664525u+1013904223u; nz=(double)((int)((l>>16)&0x7fff)-16384)/16384.0; b->s16[t*ch+c]=(short)sig_clip16((c?0.7:1.0)*hv+(2500*env+300)*nz); } }
+         } else { sig_init(&g,fam,Fs,ch,(uint32_t)(fam*7+1)); sig_gen(&g,b->s16,(int)SBN); }
          for(i=0;i<n;i++){ b->s24[i]=(opus_int32)b->s16[i]*256; b->f[i]=b->s16[i]*(1.f/32768); }
       } else {
          siggen g; short *t=malloc(n*sizeof(short)); long blk=Fs/86;   /* ~11.6 ms blocks */
@@ -518,6 +524,46 @@ static void sweep_item(long it,void *ctx){
    }
 }
 
+/* ------------------------------------------------------------------ tight budgets
+ * Every comparison of ec_tell()/bit counts against the byte budget (redundancy flag and size, ec_enc_shrink, nb_compr_bytes, SILK maxBits,
+ * CELT total_bits reservations, anti-collapse, ...) is a boundary that only packets pinned to a small size reach, and then only for particular
+ * bit counts.  So: for each mode class (forced SILK, forced hybrid + fullband, forced CELT, automatic, automatic + fullband + voice hint) x
+ * mono/stereo x frame duration, EVERY packet size N in g_tlo..g_thi bytes, pinned by hard CBR (bitrate 8*N*frames/s), by VBR with max_data_bytes=N
+ * (OPUS_BITRATE_MAX) and (thorough) by unconstrained VBR at that rate with max_data_bytes=N, on long busy streams (g_tframes frames each).
+ * item = (rate index, channels, class/duration combination, N) */
+static const struct { int cls,dur; } TCOMBO[]={{0,2},{0,3},{1,2},{1,3},{2,0},{2,1},{2,2},{2,3},{3,3},{4,3},{3,2},{4,2}};
+#define NTCOMBO_Q 10
+#define NTCOMBO_ALL 12
+static const char *const TCLS[5]={"forced-silk","forced-hybrid+FB","forced-celt","auto","auto+FB+voice"};
+static int g_tlo,g_thi,g_tframes,g_tnfs,g_tcombos; static int TFS[5];
+static void tight_item(long it,void *ctx){
+   int span=g_thi-g_tlo+1, N=g_tlo+(int)(it%span), co=(int)((it/span)%g_tcombos), ch=1+(int)((it/span/g_tcombos)%2), fs_i=TFS[(it/span/g_tcombos/2)%g_tnfs];
+   int cls=TCOMBO[co].cls, d=TCOMBO[co].dur, fps=48000/DUR48[d], var, na, ai, dflt[NDIM]; (void)ctx;
+   static const int tf[4]={F_VN,SIG_NOISE,SIG_SPEECH,SIG_MULTITONE};
+   int apps[2]; if (cls==2){ apps[0]=1; apps[1]=2; } else { apps[0]=0; apps[1]=1; }
+   na = 1; if (MC.tier && ((N+co+ch)&1)){ int t_=apps[0]; apps[0]=apps[1]; apps[1]=t_; }   /* thorough: the application rotates over (size, class, channels) */
+   load_signals(FS[fs_i],ch); vec_default(dflt);
+   for(ai=0;ai<na;ai++) for(var=0;var<(MC.tier?3:2);var++){
+      int base=fs_i*6+(ch-1)*3+apps[ai], v[NDIM], k;
+      vec_default(v); v[D_DUR]=d;
+      if (cls==0) v[D_MODE]=REF_MODE_SILK_ONLY; else if (cls==1){ v[D_MODE]=REF_MODE_HYBRID; v[D_BW]=OPUS_BANDWIDTH_FULLBAND; } else if (cls==2) v[D_MODE]=REF_MODE_CELT_ONLY;
+      else if (cls==4){ v[D_BW]=OPUS_BANDWIDTH_FULLBAND; v[D_SIGNAL]=OPUS_SIGNAL_VOICE; }
+      if (var==0){ v[D_VBR]=0; v[D_BITRATE]=8*N*fps; }                          /* hard CBR at exactly N bytes */
+      else if (var==1){ v[D_BITRATE]=OPUS_BITRATE_MAX; v[D_MDB]=N; }            /* VBR capped by the buffer */
+      else { v[D_CVBR]=0; v[D_BITRATE]=8*N*fps; v[D_MDB]=N; }                   /* unconstrained VBR at that rate, capped by the buffer */
+      for(k=0;k<4;k++){
+         encobj e; decobj D[14]; int nd,f,fam=tf[k],entry=(int)((it+k+var)%3); long pos=0, rc=it*8+var*4+k;
+         if (k!=(int)((N+co+var)%4) && !(g_allfam && k==(int)((N+co+var+2)%4))) continue;   /* one busy family per (class, size, variant), rotating; --allfam 1 (thorough): two */
+         mc_case("encode_or_decode","tight base=%d Fs=%d ch=%d app=%s class=%s cfg=[%s] signal=%s entry=%s frames=%d",base,FS[fs_i],ch,APPN[apps[ai]],TCLS[cls],vec_str(v),famname(fam),ENTN[entry],g_tframes);
+         enc_fresh(&e,base);
+         if (apply_diff(&e,dflt,v)){ MC_INC(c_skipcfg); continue; }
+         nd=dec_set(D,rc,base);
+         MC_INC(c_runs);
+         for(f=0;f<g_tframes;f++) if (step(&e,v,fam,entry,&pos,D,nd,base,basename_(base),f)==1) break;
+      }
+   }
+}
+
 /* ------------------------------------------------------------------ self-checks */
 static void check_defaults(void){
    /* the "default" column of the dimension table must be what a fresh encoder reports (else "deviation" would be mislabelled) */
@@ -534,6 +580,9 @@ int main(int argc,char **argv){
    g_k=(int)mc_arg("--k",2); g_frames=(int)mc_arg("--frames",MC.tier?6:5); g_ndec=(int)mc_arg("--ndec",MC.tier?10:2);
    full=(int)mc_arg("--alpha",MC.tier?1:0); sigset=(int)mc_arg("--sigset",MC.tier?1:0); g_stack=(int)mc_arg("--stack",0);
    g_nlay=(int)mc_arg("--nlay",MC.tier?NLAY_ALL:NLAY_BOUND); g_allfam=(int)mc_arg("--allfam",MC.tier?1:0); g_mink=(int)mc_arg("--mink",0); g_split=(int)mc_arg("--split",g_k>=3); g_sweep=(int)mc_arg("--sweep",260); g_sweepall=(int)mc_arg("--sweepall",MC.tier?1:0);
+   g_tlo=(int)mc_arg("--tlo",6); g_thi=(int)mc_arg("--thi",90); g_tframes=(int)mc_arg("--tframes",MC.tier?200:150); g_tcombos=(int)mc_arg("--tcombos",MC.tier?NTCOMBO_ALL:NTCOMBO_Q);
+   { const char *r=mc_arg_s("--trates",MC.tier?"234":"4"); g_tnfs=0; for(;*r&&g_tnfs<5;r++) if(*r>='0'&&*r<='4') TFS[g_tnfs++]=*r-'0'; if(!g_tnfs) TFS[g_tnfs++]=4; }   /* digits = indices into {8,12,16,24,48} kHz */
+   if (!strcmp(mode,"tight")){ g_tight=1; g_siglen=(int)mc_arg("--siglen",40); }
    build_alphabet(full);
    check_defaults();
    NFAMS=0;
@@ -556,10 +605,11 @@ int main(int argc,char **argv){
    else if (!strcmp(mode,"hist")){ mc_par(30L*(NS+1),hist_item,NULL); }
    else if (!strcmp(mode,"ms")){ mc_par(ms_nitems()+(g_sweep>0?(long)g_nlay*15*NSWEEPCFG:0),ms_item,NULL); }
    else if (!strcmp(mode,"sweep")){ mc_par(30L*36,sweep_item,NULL); }
+   else if (!strcmp(mode,"tight")){ mc_par((long)(g_thi-g_tlo+1)*g_tcombos*2*g_tnfs,tight_item,NULL); }
    else { fprintf(stderr,"unknown mode\n"); return 2; }
    {
       mc_ctr *st=mc_counter("states"),*ev=mc_counter("evaluations"),*dn=mc_counter("distinct_nontrivial"),*mm=NULL,*mr=NULL;
-      if (strcmp(mode,"ms")&&strcmp(mode,"sweep")){ mm=mc_counter("min_packets_per_base_and_tree_decoder"); mr=mc_counter("min_packets_per_base_and_ref_decoder"); }
+      if (strcmp(mode,"ms")&&strcmp(mode,"sweep")&&strcmp(mode,"tight")){ mm=mc_counter("min_packets_per_base_and_tree_decoder"); mr=mc_counter("min_packets_per_base_and_ref_decoder"); }
       *st=mc_set_count(S_states); *ev=*c_trans+*c_dec; *dn=mc_set_count(S_obs);
       if (mm){ long lo=-1,lor=-1; int b,d; for(b=0;b<30;b++) for(d=0;d<20;d++){ long x=MEET[b*20+d]; if(d<10){ if(lo<0||x<lo) lo=x; } else { if(lor<0||x<lor) lor=x; } } *mm=lo; *mr=lor; }
    }
